@@ -553,6 +553,15 @@ class Pass2(CompilePass):
                 EC.INVALID_CONSTANT,
                 node=node.value)
 
+        try:
+            node.value.eval()
+        except (OverflowError, ZeroDivisionError):
+            # a constant expression that cannot be evaluated
+            raise CompileError(
+                EC.INVALID_CONSTANT,
+                'Constant expression cannot be evaluated',
+                node=node.value)
+
         if node.parent_routine == self.compilation.main_routine:
             if node.name in self.compilation.global_consts:
                 raise CompileError(
